@@ -16,7 +16,7 @@ def sha(b: bytes) -> str:
     return hashlib.sha256(b).hexdigest()[:20]
 
 
-def analysis(params, workdir: Path, models_in=None, model_order=None):
+def analysis(params, workdir: Path, models_in=None, model_order=None, proteins_in=None, keep=None):
     """returns (digest dict, models). All randomness derives from params['seed']."""
     import numpy as np
     import mokapot
@@ -63,7 +63,10 @@ def analysis(params, workdir: Path, models_in=None, model_order=None):
             coefs.append(b"untrained")
     digest["coefs"] = sha(b"".join(coefs))
     digest["model_folds"] = [int(m.fold) for m in models]
-    prot = mokapot.read_fasta(fasta, missed_cleavages=0, min_length=4)
+    # the same Proteins object may be reused for a second analysis in one process (it must not carry state over)
+    prot = proteins_in if proteins_in is not None else mokapot.read_fasta(fasta, missed_cleavages=0, min_length=4)
+    if keep is not None:
+        keep["proteins"] = prot
     digest["fasta"] = sha(json.dumps([sorted(prot.peptide_map.items()), sorted(prot.protein_map.items()),
                                       sorted((k, sorted(v.split("; "))) for k, v in prot.shared_peptides.items())]).encode())
     out = workdir / "out"
